@@ -184,6 +184,27 @@ pub fn run(ctx: &mut Ctx) {
             }
             clients.push((u, gen_value(ctx)));
         }
+        // near-duplicate user names (letter case, surrounding blanks, a prefix): different users
+        if ctx.rng.below(2) == 0 {
+            let base = if ctx.rng.below(2) == 0 { clients[0].0.clone() } else { "Alice".to_string() };
+            let variants = [
+                base.to_uppercase(),
+                base.to_lowercase(),
+                format!("{} ", base),
+                format!(" {}", base),
+                format!("{}x", base),
+                base.chars().map(|c| if c.is_ascii_lowercase() { c.to_ascii_uppercase() } else { c.to_ascii_lowercase() }).collect(),
+                base.clone(),
+            ];
+            for v in variants {
+                if ctx.rng.below(2) == 0 && !clients.iter().any(|(x, _)| *x == v) {
+                    let at = ctx.rng.below(clients.len() as u64 + 1) as usize;
+                    let pw = gen_value(ctx);
+                    clients.insert(at, (v, pw));
+                }
+            }
+            ctx.stat("near_duplicate_user_lists");
+        }
         // the wizard's own composer -> file -> endpoint
         let content = crate::gen_wizard::compose_credentials_content(clients.iter().cloned());
         let got = read_clients(&dir, &content);
@@ -224,24 +245,29 @@ pub fn run(ctx: &mut Ctx) {
                 ctx.oracle_failure("sni_accepted_by_registry", t);
             }
         }
-        // exported client configuration carries the same pair
-        let cfg = trusttunnel::client_config::build(
-            &clients[0].0,
-            vec!["192.0.2.2:443".parse::<SocketAddr>().unwrap()],
-            &got.iter().map(|(u, p)| Client { username: u.clone(), password: p.clone() }).collect::<Vec<_>>(),
-            &hosts(),
-        )
-        .compose_toml();
-        match cfg.parse::<toml::Value>() {
-            Ok(v) => {
-                let u = v.get("username").and_then(|x| x.as_str()).map(String::from);
-                let p = v.get("password").and_then(|x| x.as_str()).map(String::from);
-                if u.as_deref() != Some(&clients[0].0) || p.as_deref() != Some(&clients[0].1) {
-                    ctx.oracle_failure("export_differs", &format!("exported {:?}/{:?} for configured {:?}", u, p, clients[0]));
+        // exported client configuration of every client carries that client's own pair
+        for wanted in &clients {
+            let cfg = trusttunnel::client_config::build(
+                &wanted.0,
+                vec!["192.0.2.2:443".parse::<SocketAddr>().unwrap()],
+                &got.iter().map(|(u, p)| Client { username: u.clone(), password: p.clone() }).collect::<Vec<_>>(),
+                &hosts(),
+            )
+            .compose_toml();
+            match cfg.parse::<toml::Value>() {
+                Ok(v) => {
+                    let u = v.get("username").and_then(|x| x.as_str()).map(String::from);
+                    let p = v.get("password").and_then(|x| x.as_str()).map(String::from);
+                    if u.as_deref() != Some(&wanted.0) || p.as_deref() != Some(&wanted.1) {
+                        ctx.oracle_failure(
+                            "export_differs",
+                            &format!("exported {:?}/{:?} for client {:?} of the credentials {:?}", u, p, wanted, clients),
+                        );
+                    }
+                    ctx.stat("export_ok");
                 }
-                ctx.stat("export_ok");
+                Err(e) => ctx.oracle_failure("export_unparsable", &e.to_string()),
             }
-            Err(e) => ctx.oracle_failure("export_unparsable", &e.to_string()),
         }
     }
 
